@@ -354,6 +354,18 @@ fn run_graph<K: Kmer + Send + Sync>(nodes: &[NodeV<u32>], stranded: bool, seed: 
         max_threads = max_threads.max(seen_threads);
         by_pool.push((POOL_SIZES[pi], seen_threads));
     }
+    // and once on the global rayon pool (no explicit pool), which is how library users call finish()
+    {
+        take_threads();
+        let g = base_of::<K>(nodes, stranded).finish();
+        let t = take_threads();
+        builds += 1;
+        if answers(&g, &probes) != reference {
+            return Err("finish() on the global rayon pool answers differently from finish_serial()".into());
+        }
+        by_pool.push((0, t));
+        max_threads = max_threads.max(t);
+    }
     Ok(Report {
         nodes: nodes.len(),
         max_threads,
